@@ -45,6 +45,16 @@ func VC19_ImageReadOnly() {
 			vsym.AssertBytesEq(s1[i].Certificate, s2[i].Certificate, "Signatures is repeatable (entry bytes)")
 		}
 	}
+	// interleaved use: a partly drained reader, then other read-only calls, then the rest
+	r1 := p.Open()
+	head := make([]byte, 100)
+	io.ReadFull(r1, head)
+	b3 := p.Bytes()
+	o3, _ := io.ReadAll(p.Open())
+	tail, _ := io.ReadAll(r1)
+	vsym.AssertBytesEq(b3, b1, "Bytes is unaffected by a partly drained Open reader")
+	vsym.AssertBytesEq(o3, b1, "a second Open reader is independent of a partly drained one")
+	vsym.AssertBytesEq(append(head, tail...), b1, "a partly drained Open reader is unaffected by other read-only calls")
 	vsym.AssertReadOnly("image operations")
 	vsym.Reach("end")
 }
